@@ -78,6 +78,11 @@ blockScan:
 	}
 
 	// Add return label at correct position and reverse it.
+	// The label must fit into the block: slicing beyond its length would
+	// write into whatever follows the block in the underlying buffer.
+	if returnLabelStart+returnLabel.EncodedSize() > len(block) {
+		return 0, ErrBufTooSmall
+	}
 	labelSlot := block[returnLabelStart : returnLabelStart+returnLabel.EncodedSize()]
 	binary.PutUvarint(labelSlot, uint64(returnLabel))
 	slices.Reverse[[]byte, byte](labelSlot)
